@@ -336,6 +336,12 @@ def templates(tier):
     yield "class:starbases", "class K(*p(1, ())):\n    pass", ""
     # ---- headers
     yield "if:elif", "if p(1):\n    m(2)\nelif p(3):\n    m(4)\nelse:\n    m(5)", ""
+    yield "if:elif-noelse", "if p(1):\n    m(2)\nelif p(3):\n    m(4)\nm(5)", ""
+    yield "if:elif-elif-noelse", "if p(1):\n    m(2)\nelif p(3):\n    m(4)\nelif p(5):\n    m(6)\nm(7)", ""
+    yield "if:else-if-noelse", "if p(1):\n    m(2)\nelse:\n    if p(3):\n        m(4)\nm(5)", ""
+    yield "if:else-boolop-stmt", "if p(1):\n    m(2)\nelse:\n    p(3) and p(4)\nm(5)", ""
+    yield "if:else-orstmt", "if p(1):\n    m(2)\nelse:\n    p(3) or p(4)\nm(5)", ""
+    yield "if:body-boolop-stmt", "if p(1):\n    p(2) or p(3)\nelif p(4):\n    p(5) and p(6)\nelse:\n    p(7) or p(8)\nm(9)", ""
     yield "if:not-and-or", "if not p(1) and p(2) or p(3):\n    m(4)", ""
     yield "while:hdr", "n = 0\nwhile p(1):\n    m(2)\n    n = n + 1\n    if n > 1:\n        break\nelse:\n    m(3)", ""
     yield "while:cmp", "n = 0\nwhile p(1) < p(2):\n    n = n + 1\n    if n > 1:\n        break", ""
